@@ -7,7 +7,7 @@
    model, started at the first address of the flattened code, reaches in finitely many steps the address
    after the code (resp. the enclosing loop's end / continue point) in exactly the state [srun] gives. *)
 From Coq Require Import List NArith Bool Arith.
-From BM Require Import Isa.Sim Front.BondgoFlow Proofs.BondgoFlowProofs.
+From BM Require Import Isa.Sim Front.BondgoFlow Proofs.BondgoFlowProofs Proofs.BondgoLowerProofs.
 Import ListNotations.
 
 Theorem emitted_jumps_implement_the_structured_control_flow :
@@ -32,6 +32,12 @@ Print Assumptions emitted_jumps_implement_the_structured_control_flow.
 Theorem flattened_code_has_the_computed_size : forall l base brk cont, length (flatten base brk cont l) = size l.
 Proof. exact flatten_length. Qed.
 Print Assumptions flattened_code_has_the_computed_size.
+
+(* the premise about blocks holds for every program the lowering accepts (declarations, assignments, ++/--, IOWrite, if/else on a
+   constant, for with init and post, break, continue; any nesting) *)
+Theorem every_lowered_program_has_jump_free_blocks : forall nvars l c, lower_main nvars l = Some c -> wfl c = true.
+Proof. exact lowered_programs_meet_the_premise. Qed.
+Print Assumptions every_lowered_program_has_jump_free_blocks.
 
 (* the hypotheses are met: a loop with an if / else whose branches continue and break, followed by a write;
    the structured meaning ends normally and the machine, run on the flattened code (followed by an idle jump),
